@@ -42,7 +42,11 @@ def run(ctx):
                    "master row, one arbiter per transposed column, predicates taken from the slave list", min_sites=6)
     ctx.rule("W4", "region predicate a[k:] == origin >> k with one k; origin and size converted bytes->words alike", min_sites=2)
     ctx.rule("W5", "the select gating returned data and the select gating cyc have the same register depth", min_sites=1)
+    ctx.rule("W6", "the shared bus watchdog (wishbone.Timeout) terminates only an unanswered request: timer.wait = stb & cyc & "
+                   "~ack, forced ack / error data exactly on expiry (same obligations as C11.T3)", min_sites=5)
     ctx.rule("PRIO", "no dead driver", min_sites=0)
+    from .c11 import wb_timeout_body
+    wb_timeout_body(ctx, "W6")
 
     lay = _layout(ctx)
     m2s = [n for n, d in lay if d == "DIR_M_TO_S"]
